@@ -75,10 +75,19 @@ type scn struct {
 	refObjs string // lfs/objects directory of the reference repository ("" = none)
 	seeded  []string
 	stop    bool
+	// transient server faults (nil = none in this scenario)
+	fp        *faultPlan
+	fs        *faultScript
+	fr        *rand.Rand
+	tracePath string
+	traceOff  int64
 }
 
 func (s *scn) detail(extra map[string]any) map[string]any {
 	d := map[string]any{"repo": s.src.idx, "scenario": s.k, "class": s.plan.class(), "plan": s.plan, "steps": s.steps, "history": s.src.g.Log, "seeded_oids": s.seeded}
+	if s.fs != nil {
+		d["fault_script_state"] = s.fs.summary()
+	}
 	for k, v := range extra {
 		d[k] = v
 	}
@@ -158,6 +167,24 @@ func runScenario(run *evid.Run, src *source, k int) {
 	defer s.env.Cleanup()
 	s.plan = genPlan(s.r, src, k)
 	s.srvRepo = fmt.Sprintf("s%d", k)
+	if fp := genFault(run.Seed, src.idx, k, s.plan); fp != nil {
+		s.fp = fp
+		s.plan.Fault = fp
+		s.fr = rand.New(rand.NewSource(run.Seed*3000017 + int64(src.idx)*1019 + int64(k)*11 + 3))
+		// the faults are about downloads: keep some for the clone to make, and prefer the long-running filter
+		if s.plan.Store == "reference-full" {
+			s.plan.Store = "reference-subset"
+		}
+		if s.fr.Intn(5) != 0 {
+			s.plan.Driver = "process"
+		}
+		s.fs = &faultScript{run: run, kind: fp.Kind, victims: map[string]*victimState{}}
+		src.scripts.Store(s.srvRepo, s.fs)
+		defer src.scripts.Delete(s.srvRepo)
+		s.tracePath = filepath.Join(s.env.Root, "verif-trace.jsonl")
+		s.env.Extra = append(s.env.Extra, "VERIF_RETRY_SCALE=0.02", "VERIF_TRACE="+s.tracePath)
+		run.Count("scenarios_with_faulty_server", 1)
+	}
 	for _, oid := range src.srv.Oids("origin") {
 		b, _ := src.srv.Get("origin", oid)
 		src.srv.Put(s.srvRepo, b)
@@ -166,6 +193,18 @@ func runScenario(run *evid.Run, src *source, k int) {
 	s.clone = filepath.Join(s.env.Root, "clone")
 	s.gitDir = filepath.Join(s.clone, ".git")
 	s.runPlan()
+	if s.fs != nil && os.Getenv("VERIF_C04_DEBUG") != "" {
+		var st []string
+		for _, x := range s.steps {
+			if x.Step != "setup" {
+				st = append(st, fmt.Sprintf("%s=%d", x.Step, x.Code))
+			}
+		}
+		fmt.Fprintf(os.Stderr, "FAULTY repo %d scen %d kind %d %s target=%d script=%v injected=%d steps=%v\n", src.idx, k, s.plan.Kind, s.plan.class(), s.fp.Target, s.fp.Script, s.fs.total(), st)
+	}
+	if s.fs != nil && s.fp.armings == 0 {
+		run.Count("fault_scripts_never_armed_nothing_to_download", 1)
+	}
 	for _, rq := range src.srv.Log() {
 		if rq.Repo == s.srvRepo && rq.Kind == "storage-get" {
 			run.Count("downloads_in_scenarios_store_"+s.plan.Store, 1)
@@ -204,6 +243,10 @@ func (s *scn) runPlan() {
 	if len(p.CfgExc) > 0 {
 		deliver(p.CfgVia, "lfs.fetchexclude", joinPats(p.CfgExc))
 	}
+	if s.fp != nil {
+		deliver(s.fp.Via, "lfs.transfer.maxretries", fmt.Sprint(s.fp.Retries))
+		s.run.Count(fmt.Sprintf("fault_scenarios_maxretries_%d", s.fp.Retries), 1)
+	}
 	var refArgs []string
 	switch p.Store {
 	case "reference-full":
@@ -234,13 +277,26 @@ func (s *scn) runPlan() {
 	if p.Skip {
 		cloneEnv = []string{"GIT_LFS_SKIP_SMUDGE=1"}
 	}
+	if !p.Skip && !p.NoCheckout {
+		s.maybeArm(0, "clone", func() []string {
+			for _, ri := range s.src.refs {
+				if ri.Name == p.Ref && ri.Kind == p.RefKind {
+					return s.candidates(ri.Ptrs, p.CfgInc, p.CfgExc, nil)
+				}
+			}
+			return nil
+		})
+	}
+	inj0 := s.injected()
 	res := s.exec("clone", s.env.Root, cloneEnv, "git", args...)
 	if s.stop {
 		return
 	}
 	s.model = histgen.NewModel(s.env, s.clone)
 	if !res.OK() {
-		s.failed("clone", res)
+		// a failed git clone removes the directory: nothing is left to judge
+		s.opFailed("clone", res, s.injected()-inj0)
+		s.observeSmudge("clone")
 		return
 	}
 	// what was passed with -c must stay in force for the later commands
@@ -262,22 +318,57 @@ func (s *scn) runPlan() {
 	}
 	if p.NoCheckout {
 		seed()
+		s.maybeArm(0, "checkout-after-no-checkout", func() []string {
+			return s.candidates(ptrsAt(s.env, s.model, "HEAD"), p.CfgInc, p.CfgExc, nil)
+		})
+		inj0 = s.injected()
 		res = s.git("checkout-after-no-checkout", nil, "reset", "-q", "--hard")
 		if s.stop {
 			return
 		}
 		s.run.Count("scenario_ops_checkout-after-no-checkout", 1)
-		s.judge(&opCtx{kind: "checkout-after-no-checkout", inc: p.CfgInc, exc: p.CfgExc, pre: map[string]fstate{}, post: snapshot(s.clone), res: res})
+		s.judge(&opCtx{kind: "checkout-after-no-checkout", inc: p.CfgInc, exc: p.CfgExc, pre: map[string]fstate{}, post: snapshot(s.clone), res: res, injected: s.injected() - inj0})
+		s.observeSmudge("checkout-after-no-checkout")
+		if !res.OK() && s.fs != nil {
+			return // index and HEAD may disagree now
+		}
 	} else {
 		s.run.Count("scenario_ops_clone", 1)
-		s.judge(&opCtx{kind: "clone", skip: p.Skip, inc: p.CfgInc, exc: p.CfgExc, pre: map[string]fstate{}, post: snapshot(s.clone), res: res})
+		s.judge(&opCtx{kind: "clone", skip: p.Skip, inc: p.CfgInc, exc: p.CfgExc, pre: map[string]fstate{}, post: snapshot(s.clone), res: res, injected: s.injected() - inj0})
+		s.observeSmudge("clone")
 		seed()
 	}
-	for _, o := range p.Ops {
+	for i, o := range p.Ops {
 		if s.stop {
 			return
 		}
-		s.runOp(o)
+		s.runOp(i+1, o)
+	}
+}
+
+func (s *scn) injected() int {
+	if s.fs == nil {
+		return 0
+	}
+	return s.fs.total()
+}
+
+// opFailed: a command that exits non-zero while the server was answering it with scripted faults is only
+// counted; any other non-zero exit makes the scenario inconclusive, as before.
+func (s *scn) opFailed(step string, res sbx.Result, injected int) {
+	if s.fs != nil && injected > 0 {
+		s.run.Count("ops_failed_under_faults", 1)
+		s.run.Count("ops_failed_under_faults_"+step+"_"+s.fp.Kind, 1)
+		return
+	}
+	s.failed(step, res)
+}
+
+// observeSmudge: counters from the verif-tagged trace after a command that smudges through Git (never part of a verdict).
+func (s *scn) observeSmudge(step string) {
+	if n := s.scanTrace(); n > 0 && s.plan.Driver == "process" {
+		s.run.Count("delayed_smudge_fallbacks_observed", int64(n))
+		s.run.Count("delayed_smudge_fallbacks_observed_"+step+"_"+s.fp.Kind, int64(n))
 	}
 }
 
@@ -294,7 +385,7 @@ func (s *scn) headBlobs() map[string]string {
 	return out
 }
 
-func (s *scn) runOp(o opPlan) {
+func (s *scn) runOp(step int, o opPlan) {
 	p := s.plan
 	c := &opCtx{kind: o.Kind, mut: map[string]string{}}
 	if o.Mutate {
@@ -360,13 +451,49 @@ func (s *scn) runOp(o opPlan) {
 			s.run.Count("ops_run_from_subdirectory", 1)
 		}
 	}
+	s.maybeArm(step, o.Kind, func() []string {
+		switch o.Kind {
+		case "git-checkout":
+			if o.SkipEnv {
+				return nil
+			}
+			for _, ri := range s.src.refs {
+				if ri.Name == o.Ref {
+					return s.candidates(ri.Ptrs, c.inc, c.exc, func(pi pinfo) bool { return c.oldHead[pi.Path] != pi.Mode+" "+pi.Blob })
+				}
+			}
+		case "lfs-fetch":
+			revs := o.Refs
+			if len(revs) == 0 {
+				revs = []string{"HEAD"}
+			}
+			var ps []pinfo
+			for _, rev := range revs {
+				ps = append(ps, ptrsAt(s.env, s.model, rev)...)
+			}
+			return s.candidates(ps, c.inc, c.exc, nil)
+		case "lfs-pull":
+			return s.candidates(ptrsAt(s.env, s.model, "HEAD"), c.inc, c.exc, nil)
+		}
+		return nil // lfs checkout never downloads
+	})
+	inj0 := s.injected()
 	c.res = s.exec(o.Kind, cwd, envExtra, "git", args...)
 	if s.stop {
 		return
 	}
+	c.injected = s.injected() - inj0
 	c.post = snapshot(s.clone)
 	s.run.Count("scenario_ops_"+o.Kind, 1)
 	s.judge(c)
+	if o.Kind == "git-checkout" {
+		s.observeSmudge(o.Kind)
+		if !c.res.OK() && s.fs != nil {
+			s.stop = true // index and HEAD may disagree now
+		}
+	} else {
+		s.scanTrace() // skip what this command traced
+	}
 }
 
 // ---------- mutations before pull / lfs checkout ----------
@@ -460,6 +587,7 @@ type opCtx struct {
 	preLocal  map[string]bool
 	mut       map[string]string
 	res       sbx.Result
+	injected  int // scripted server faults answered while the command ran
 }
 
 func classify(st fstate, ok bool, pi pinfo) string {
@@ -489,6 +617,10 @@ func sameState(a fstate, aok bool, b fstate, bok bool) bool {
 // patterns that should not match > object source > nothing special.
 func (s *scn) trigger(c *opCtx, pi pinfo) string {
 	t := c.kind
+	if s.fs != nil && s.fs.injectedFor(pi.Oid) > 0 {
+		// the server misbehaved for this very object (now or in an earlier step)
+		return t + "-fault-" + s.fp.Kind
+	}
 	var incMatch, excMatch []pat
 	for _, p := range c.inc {
 		if matchGI(p.Text, pi.Path) {
@@ -555,7 +687,10 @@ func (s *scn) judge(c *opCtx) {
 		isPtrPath[pi.Path] = true
 	}
 	if !ok {
-		s.failed(c.kind, c.res)
+		s.opFailed(c.kind, c.res, c.injected)
+	} else if c.injected > 0 {
+		s.run.Count("ops_succeeded_under_faults", 1)
+		s.run.Count("ops_succeeded_under_faults_"+c.kind+"_"+s.fp.Kind, 1)
 	}
 	requireObject := func(pi pinfo, where string) {
 		if _, has := s.src.srv.Get(s.srvRepo, pi.Oid); !has {
